@@ -142,8 +142,9 @@ func checkCase(ctx *xplor.Ctx, p *lx.Prepared, net nk.Net, word []int, alpha []l
 		p.Node.ResetGlobals()
 		if err == nil && len(fb.Block.GetBody().GetTxs()) == len(x.Included)+1 {
 			before = p.Node.StoreDigest()
-			dup := lx.Forge(x.Built.Block, append(append([]*types.Tx{}, x.Included...), x.Included[0]), 1)
-			_ = p.Node.Deliver(dup) // fails in executeTx (nonce too low) after ValidateBody started the verification
+			low := nk.MakeTx(nk.TxSpec{From: 3, Nonce: 0, To: nk.UserAddrs[0], Type: types.TxType_TRANSFER}, cid)
+			bad := lx.Forge(x.Built.Block, append(append([]*types.Tx{}, x.Included...), low), 1)
+			_ = p.Node.Deliver(bad) // valid signatures, fails in executeTx (nonce too low) after ValidateBody started the verification
 			if m := refuse("a tx signed with a foreign key (delivered after a block that failed during execution)", fb.Block); m != "" {
 				return desc, "F18", m
 			}
